@@ -44,6 +44,14 @@ def generate(rng, tier, index):
     nops = [rng.randint(1, 3) for _ in range(n)]
     callers = build(rng, kind, framing, n, nops, [0.0005, 0.001, 0.003, 0.01, 0.02])
     kw = {'timeout': 0.5, 'retries': rng.choice([0, 1, 3])}
+    if rng.random() < 0.25:
+        # broadcast writes (unit 0, no reply) are transactions too: they must not cut into another
+        # caller's transaction either
+        kw['broadcast_enable'] = True
+        for ops in callers:
+            for op in ops:
+                if op['fn'] in ('write_register', 'write_registers') and rng.random() < 0.6:
+                    op['unit'] = 0
     sched = {'tail_seed': rng.randrange(1 << 30)}
     if tier == 'thorough' and rng.random() < 0.4:
         # PCT-style: 1-3 forced switches at line events inside the client code
@@ -124,6 +132,8 @@ def execute(scn):
             add('raised', 'caller%d call %d raised %s: %s' % (call['caller'], call['index'], type(call['exc']).__name__, str(call['exc'])[:80]),
                 exc=type(call['exc']).__name__)
             continue
+        if (scn['client'].get('kwargs') or {}).get('broadcast_enable') and op.get('unit') == 0:
+            continue                # broadcast: a constant is returned by design, nothing to pair
         ok, why = cc.values_match(op, call['result'])
         if not ok:
             from pymodbus.exceptions import ModbusIOException
@@ -137,6 +147,7 @@ def execute(scn):
     out['probes']['callers_overlapped'] = 1 if overl else 0
     out['probes']['connections_opened'] = res.connects
     out['probes']['line_preemptions'] = res.counters.get('line_preempt', 0)
+    out['probes']['broadcast_ops'] = sum(1 for ops in scn['callers'] for op in ops if op.get('unit') == 0)
     out['cell'] = '%s/%s/%s' % (kind, len(scn['callers']), 'line' if (scn.get('sched') or {}).get('preempt_lines') else 'transport')
     return out
 
